@@ -2,8 +2,9 @@ package corpus
 
 import "verifharness/spec"
 
-// All returns the corpus of a tier: fixed corpus first, then random programs and families.
+// All returns the corpus of a tier: fixed corpus first, then families and random programs.
 func All(tier string, seed int64) []*spec.Program {
 	out := Atlas()
+	out = append(out, Families(tier, seed)...)
 	return out
 }
